@@ -96,6 +96,34 @@ CLAIMED = {
         technique="symbolic interpretation of the C source (pycparser AST) and symbolic execution of the Python "
                   "wrapper; z3 path feasibility + one QF_LRA/LIA validity query per obligation",
         design="3.6"),
+    "C02": dict(
+        text="The real displacement methods are executed on ideal-real proxies and compared with an independently "
+             "written closed form of the cumulative uphill energy: InversePowerPotential (powers 1,2,6,12; thorough "
+             "+3,4; dimensions 1-3; both signs; symbolic prefactor, charges, speed, budget): finite result <=> budget "
+             "reachable, result on the uphill segment, accumulated energy == budget, no arithmetic failure; hard "
+             "sphere/dipole: first contact time, quantified over all earlier times; cell bounding potential; the C "
+             "file of the periodic Coulomb bound through the C interpreter (laps 0; thorough 0-2): accumulated "
+             "periodic uphill energy == budget.",
+        note="Ideal reals; rational powers as uninterpreted functions with instantiated laws of real powers "
+             "(PowTheory); Mexican-hat displacement (Lennard-Jones, displaced even power) is not part of this check "
+             "yet and is outside the claim; exactly aligned separations in the C bound (IEEE division by zero) "
+             "outside; counterexamples replayed natively (Python classes, C compiled with gcc).",
+        technique="symbolic execution of the real Python code and of the C source (csym) in QF_UFNRA; z3 nlsat + "
+                  "cvc5 portfolio; one validity query per obligation and path",
+        design="3.2"),
+    "C03": dict(
+        text="The real derivative methods (inverse power, Lennard-Jones, displaced even power, the C Coulomb bound "
+             "via the C interpreter; bending potential and dimension 3 in the thorough tier) are executed on "
+             "ideal-real proxies and proved equal to the forward-mode automatic derivative of the reference energy "
+             "along s(t) = s0 - v t e_dir; the Python wrappers of both C potentials are proved to pass the component "
+             "along the motion first, the transverse ones after, and to multiply prefactor, both charges and speed "
+             "exactly once (C entry point uninterpreted).",
+        note="The converged merged-image lattice sum (independence of alpha, periodicity, convergence of the "
+             "truncated erfc/exp/sin/cos sums) has no SMT theory here and is outside the claim; trusted base: the "
+             "differentiation rules of the reference (sum, product, quotient, power, acos).",
+        technique="symbolic execution of the real Python/C code + forward-mode AD of a reference energy; QF_UFNRA "
+                  "validity queries (z3 nlsat + cvc5 portfolio)",
+        design="3.3"),
 }
 
 NOT_APPLICABLE = {
